@@ -94,6 +94,7 @@ func TestVerifC19OnDemand(t *testing.T) {
 			heldMulti  bool
 			expiry     bool
 			closeHeld  bool
+			comeAndGo  bool
 			slipped    bool // the scheduler delayed the harness past a margin: outcome ambiguous, stop asserting
 		)
 		fail := func(format string, args ...any) {
@@ -178,7 +179,10 @@ func TestVerifC19OnDemand(t *testing.T) {
 				if nd+nr == 0 {
 					nd = 1
 				}
-				outcome := rapid.SampledFrom([]string{"publisherArrives", "timeout", "deleteConf"}).Draw(t, "outcome")
+				outcome := rapid.SampledFrom([]string{"publisherArrives", "timeout", "deleteConf", "publisherComesAndGoes"}).Draw(t, "outcome")
+				if outcome == "publisherComesAndGoes" && nr != 0 {
+					outcome = "timeout" // the come-and-go outcome is about a publisher that leaves before anybody reads
+				}
 				hist = append(hist, fmt.Sprintf("burst(describe x%d, read x%d)", nd, nr))
 				var qs []*c19Req
 				for i := 0; i < nd; i++ {
@@ -247,6 +251,51 @@ func TestVerifC19OnDemand(t *testing.T) {
 							readers = append(readers, q.rdr)
 						}
 					}
+				case "publisherComesAndGoes":
+					// only meaningful when nobody reads (describe requests only): the publisher becomes ready, the close
+					// delay starts, the publisher leaves before it expires, and new requests arrive inside that window.
+					// They must be served like any first demand: answered by the start timeout at the latest.
+					time.Sleep(c19U)
+					if time.Since(qs[0].issued) > c19StartTimeout-2*c19U {
+						slipped = true
+						return
+					}
+					p, err := vcAttachPub(pm.pathManager, "p", "pub")
+					if err != nil {
+						fail("publisher refused: %v", err)
+					}
+					for _, q := range qs {
+						if !await(q, c19Slack) {
+							fail("a held %s was not answered after the publisher became ready", q.kind)
+						}
+					}
+					tLeave := time.Now()
+					p.Detach()
+					var q2s []*c19Req
+					for i := 0; i < 1+nd%2; i++ {
+						q2s = append(q2s, issue("describe"))
+					}
+					if time.Since(tLeave) > c19CloseAfter-c19U {
+						slipped = true
+						return
+					}
+					comeAndGo = true
+					for _, q := range q2s {
+						if !await(q, c19StartTimeout+c19CloseAfter+c19Slack) {
+							fail("a describe issued right after the on-demand publisher left (inside the close delay) was never answered (start timeout %v, close delay %v)", c19StartTimeout, c19CloseAfter)
+						}
+						if _, st, _, _ := q.result(); st {
+							fail("a describe issued after the publisher left was given a stream")
+						}
+					}
+					// the command was stopped when the publisher left (or at the latest by the close delay), started again
+					// for the new demand and stopped at its start timeout: wait for quiescence, then compare totals
+					time.Sleep(c19CloseAfter + 2*c19U)
+					starts++
+					stops += 2
+					cmdRunning = false
+					expectCounts("publisher came and went, new demand inside the close delay")
+					return
 				case "timeout":
 					expiry = true
 					for _, q := range qs {
@@ -366,7 +415,10 @@ func TestVerifC19OnDemand(t *testing.T) {
 		if starts >= 2 {
 			cls = append(cls, "restart")
 		}
-		rec.Case(heldMulti && (expiry || closeHeld), strings.Join(hist, " ; "), cls...)
+		if comeAndGo {
+			cls = append(cls, "publisher-came-and-went")
+		}
+		rec.Case((heldMulti && (expiry || closeHeld)) || comeAndGo, strings.Join(hist, " ; "), cls...)
 	})
 }
 
